@@ -594,6 +594,8 @@ package keeper
 //@ ensures [frame] S == old(S) && E == old(E) && X == old(X)
 
 //@ func Keeper.QueueVSCPackets
+//@ precall ComputeConsumerNextValSet [candidate-sets] $GetLastBondedValidators.called && $ComputeConsumerNextValSet.bondedValidators == $GetLastBondedValidators.ret0 && $GetLastProviderConsensusActiveValidators.called && $ComputeConsumerNextValSet.activeValidators == $GetLastProviderConsensusActiveValidators.ret0
+//@ precall ComputeConsumerNextValSet [against-current-set] $GetConsumerValSet.called && $GetConsumerValSet.consumerId == $ComputeConsumerNextValSet.consumerId && $GetConsumerValSet.ret1 == nil && $ComputeConsumerNextValSet.currentConsumerValSet == $GetConsumerValSet.ret0 && k.GetConsumerPhase(ctx, $ComputeConsumerNextValSet.consumerId) == providertypes.CONSUMER_PHASE_LAUNCHED
 //@ let id0 := old(k.GetValidatorSetUpdateId(ctx))
 //@ loop 1 invariant [id] k.GetValidatorSetUpdateId(ctx) == id0 && valUpdateID == id0
 //@ loop 1 invariant [phases] forall c string :: k.GetConsumerPhase(ctx, c) == old(k.GetConsumerPhase(ctx, c))
@@ -791,6 +793,7 @@ package keeper
 
 //@ func Keeper.BeginBlockLaunchConsumers
 //@ precall LaunchConsumer [fresh-cache] sameworld($LaunchConsumer.ctx, ctx)
+//@ precall LaunchConsumer [candidate-sets] $GetLastBondedValidators.called && $LaunchConsumer.bondedValidators == $GetLastBondedValidators.ret0 && $GetLastProviderConsensusActiveValidators.called && $LaunchConsumer.activeValidators == $GetLastProviderConsensusActiveValidators.ret0
 //@ loop 1 step [failed-launch-rolled-back] $LaunchConsumer.called && $LaunchConsumer.ret != nil ==> E == prev(E) && X == prev(X) && (forall key bytes :: key != types.ConsumerIdToInitializationParametersKey($LaunchConsumer.consumerId) && key != types.ConsumerIdToPhaseKey($LaunchConsumer.consumerId) ==> S[key] == prev(S[key]))
 //@ loop 1 step [failed-launch-registered] $LaunchConsumer.called && $LaunchConsumer.ret != nil ==> k.GetConsumerPhase(ctx, $LaunchConsumer.consumerId) == types.CONSUMER_PHASE_REGISTERED && k.GetConsumerInitializationParameters(ctx, $LaunchConsumer.consumerId).1 == nil && k.GetConsumerInitializationParameters(ctx, $LaunchConsumer.consumerId).0.SpawnTime == 0
 //@ loop 1 step [launched-committed] $LaunchConsumer.called && $LaunchConsumer.ret == nil ==> sameworld($LaunchConsumer.ctx, ctx)
